@@ -420,7 +420,7 @@ _ADD6 = {
  'C12': ' Values of keys k % 3 == 1 may be NULL pointers (notif bit 4, trees without value notifier); op F inserts with every library allocation failing (a new key is not stored, an equal key is replaced).',
  'C13': ' Op F: an insert during which every library allocation fails; balance is checked after it and after every later operation.',
  'C14': ' Op F: an insert during which every library allocation fails destroys nothing (new key) or exactly the replaced pair.',
- 'C18': ' A scenario child that burns 20 s of its own CPU time (ITIMER_VIRTUAL) is inside a library call that does not return: verdict no-return. Scenarios with several windows are also run with the failure confined to ONE window (every window x every k x both modes), so that the state a later window starts from is the one a fault-free prefix leaves; names of pre-existing IPC objects must survive a failed second open.',
+ 'C18': ' A scenario child that burns 10 s of its own CPU time (ITIMER_VIRTUAL) is inside a library call that does not return: verdict no-return. Scenarios with several windows are also run with the failure confined to ONE window (every window x every k x both modes), so that the state a later window starts from is the one a fault-free prefix leaves; names of pre-existing IPC objects must survive a failed second open.',
  'C19': ' The ipc_new scenario also replaces, in CREATE mode and under the same interruptions, a stale semaphore name made with the platform call (the name must then carry the given value); EINTR is planned at invocations 1..9 of sem_open / shm_open.',
 }
 PROPS['C12'].subs += [Sub('big', 'tree', shards=(8, 12), cases=(1, 1), env={'VERIF_SUB': 'big', 'VERIF_CPU_BUDGET': 900}, timeout=(900, 3600))]
